@@ -181,7 +181,10 @@ func (c *aggregateCursor) inNextWindowWithInfo(currRecord *record.Record) error 
 		return nil
 	}
 	if nextRecord.RowNums() == 0 {
-		c.inNextWin = true
+		// a record without rows says nothing about the window that follows it: with time
+		// windows the current one is closed here (pieces of one window are merged
+		// downstream) instead of carrying its state into whatever window comes next
+		c.inNextWin = !c.schema.Options().HasInterval()
 		return nil
 	}
 
@@ -325,7 +328,10 @@ func (c *aggregateCursor) inNextWindow(currRecord *record.Record) error {
 		return nil
 	}
 	if nextRecord.RowNums() == 0 {
-		c.inNextWin = true
+		// a record without rows says nothing about the window that follows it: with time
+		// windows the current one is closed here (pieces of one window are merged
+		// downstream) instead of carrying its state into whatever window comes next
+		c.inNextWin = !c.schema.Options().HasInterval()
 		return nil
 	}
 
